@@ -2,6 +2,7 @@ package output
 
 import (
 	"bufio"
+	"bytes"
 	"fmt"
 	"io"
 	"regexp"
@@ -20,6 +21,9 @@ var ansiRegexp = regexp.MustCompile(ansi)
 type prefixedOutputDecorator struct {
 	t *task.Task
 	w *bufio.Writer
+
+	// an escape sequence cut off by the end of a chunk, kept until the next one
+	pending []byte
 }
 
 func newPrefixedOutputWriter(t *task.Task, w io.Writer) *prefixedOutputDecorator {
@@ -31,6 +35,19 @@ func newPrefixedOutputWriter(t *task.Task, w io.Writer) *prefixedOutputDecorator
 
 func (d *prefixedOutputDecorator) Write(p []byte) (int, error) {
 	n := len(p)
+	if len(d.pending) > 0 {
+		p = append(d.pending, p...)
+		d.pending = nil
+	}
+
+	// The unterminated rest of a chunk is written out as it is (so partial lines show up at
+	// once), except for an escape sequence that the chunk cuts in two: stripping its first
+	// half alone would leave the second half in the output as text.
+	if i := incompleteEscape(p); i >= 0 {
+		d.pending = append([]byte{}, p[i:]...)
+		p = p[:i]
+	}
+
 	for {
 		advance, line, err := bufio.ScanLines(p, true)
 		if err != nil {
@@ -68,6 +85,14 @@ func (d *prefixedOutputDecorator) WriteHeader() error {
 }
 
 func (d *prefixedOutputDecorator) WriteFooter() error {
+	if len(d.pending) > 0 {
+		_, err := d.w.Write(d.pending)
+		if err != nil {
+			logrus.Warning(err)
+		}
+		d.pending = nil
+	}
+
 	err := d.w.Flush()
 	if err != nil {
 		logrus.Warning(err)
@@ -75,6 +100,23 @@ func (d *prefixedOutputDecorator) WriteFooter() error {
 
 	logrus.Infof("%s finished. Duration %s", d.t.Name, d.t.Duration())
 	return nil
+}
+
+// incompleteEscape returns the index of an escape sequence that starts in p but does not end
+// in it (ESC followed by nothing but intermediate and parameter bytes), or -1.
+func incompleteEscape(p []byte) int {
+	i := bytes.LastIndexByte(p, 0x1b)
+	if i < 0 {
+		return -1
+	}
+
+	for _, c := range p[i+1:] {
+		if !(c >= '0' && c <= '9') && !bytes.ContainsRune([]byte("[]()#;?"), rune(c)) {
+			return -1
+		}
+	}
+
+	return i
 }
 
 type lineWriter struct {
